@@ -461,6 +461,7 @@ func (f *Firewall) Drop(fp firewall.Packet, incoming bool, h *HostInfo, caPool *
 		return nil
 	}
 
+	verifPoint(verifFwAfterInConnsMiss)
 	table := f.OutRules
 	if incoming {
 		table = f.InRules
